@@ -4,6 +4,10 @@ import Cvss.Gen.V20
 import Cvss.Gen.V30
 import Cvss.Gen.V31
 import Cvss.Gen.V40
+import Cvss.Gen.K20
+import Cvss.Gen.K30
+import Cvss.Gen.K31
+import Cvss.Gen.K40
 import Cvss.Model.Obj
 import Cvss.Model.Parse
 import Cvss.Model.WF
